@@ -623,3 +623,76 @@ def controls(body, slicer, b):
         if s in labels:
             out.append((atom, labels[s], a))
     return out
+
+
+def rebuild(t, f):
+    """Bottom-up term rewriting: f(node) -> replacement or None to keep."""
+    if not isinstance(t, tuple) or not t:
+        return t
+    if t[0] == "const":
+        r = f(t)
+        return t if r is None else r
+    new = []
+    for x in t:
+        if isinstance(x, tuple):
+            if x and isinstance(x[0], str):
+                new.append(rebuild(x, f))
+            else:
+                new.append(tuple(rebuild(y, f) if isinstance(y, tuple) else y for y in x))
+        else:
+            new.append(x)
+    nt = tuple(new)
+    r = f(nt)
+    return nt if r is None else r
+
+
+def expand_upvars(program, body, term, depth=4):
+    """Replace reads of closure upvars (`(*_1).k` / `_1.k` in a closure body) by the origin of the captured
+    operand in the creating body (recursively for nested closures)."""
+    if body.kind != "Closure" or depth <= 0:
+        return term
+    parent_path = body.path.rsplit("::{closure#", 1)[0]
+    parent = program.bodies.get(parent_path)
+    if parent is None:
+        return term
+    site = None
+    for i, j, s in parent.iter_stmts():
+        if s["k"] == "assign" and s["r"]["k"] == "agg" and s["r"]["ak"] == "closure" and s["r"].get("path") == body.path:
+            site = (i, j, s)
+            break
+    if site is None:
+        return term
+    i, j, s = site
+    PS = Slicer(parent, program)
+    cache = {}
+
+    # higher-order call the closure is handed to: closure parameters are payloads of the receiver
+    hof = None
+    for bi, t in parent.calls():
+        n = len(parent.blocks[bi]["s"])
+        for ai, a in enumerate(t["args"]):
+            at = strip(PS.operand(a, bi, n))
+            if at[0] == "agg" and at[1] == "closure" and at[2] == body.path:
+                others = [PS.operand(x, bi, n) for k, x in enumerate(t["args"]) if k != ai]
+                hof = (t.get("res") or t.get("decl") or "?", tuple(expand_upvars(program, parent, o, depth - 1) for o in others))
+                break
+        if hof:
+            break
+
+    def f(node):
+        if node[0] == "param" and node[1] >= 1 and hof is not None:
+            return ("payload", hof[0], hof[1], node[1])
+        if node[0] == "field":
+            base = node[1]
+            while base[0] in ("deref", "ref"):
+                base = base[1] if base[0] == "deref" else base[2]
+            if base[0] == "param" and base[1] == 0 and isinstance(node[2], int):
+                k = node[2]
+                if k < len(s["r"]["ops"]):
+                    if k not in cache:
+                        pt = PS.operand(s["r"]["ops"][k], i, j)
+                        cache[k] = expand_upvars(program, parent, pt, depth - 1)
+                    return ("upvar", k, cache[k])
+        return None
+
+    return rebuild(term, f)
